@@ -298,12 +298,14 @@ def crypto_key(alg):
 
 
 async def mini_as_client(kex, enc, mac, *, hostkey=b'ssh-ed25519', chunk=None, rekey=None, strict=True,
-                         sizes=SIZES, comp=b'none'):
+                         sizes=SIZES, comp=b'none', gex_request=None):
     """MiniSSH client against an asyncssh server.  rekey: None | 'mini' | 'asyncssh'."""
     seen_keys = []
     mini = M.MiniSSH('client', kex_algs=[kex], enc_algs=[enc], mac_algs=[mac] if mac else None,
                      hostkey_algs=[hostkey], strict_kex=strict, comp_algs=(comp,),
                      host_key=lambda blob: seen_keys.append(blob) or True)
+    if gex_request is not None:
+        mini.gex_request = tuple(gex_request)
     link = Link(mini, chunk)
     kw = alg_kw(kex, enc, mac, comp)
     if rekey == 'asyncssh':
